@@ -338,7 +338,7 @@ func parseFlags(args []string) (pos []string, flags map[string]string) {
 			k := strings.TrimPrefix(a, "--")
 			if j := strings.Index(k, "="); j >= 0 {
 				flags[k[:j]] = k[j+1:]
-			} else if i+1 < len(args) && !strings.HasPrefix(args[i+1], "--") && (k == "tier" || k == "harness" || k == "workers" || k == "shape" || k == "maxpaths" || k == "timeout") {
+			} else if i+1 < len(args) && !strings.HasPrefix(args[i+1], "--") && !(k == "trace" || k == "replay" || k == "observed" || k == "funcs") {
 				flags[k] = args[i+1]
 				i++
 			} else {
@@ -608,6 +608,8 @@ func applyOpts(cfg *sym.Config, h *sym.Harness) {
 			cfg.MaxEnum = n
 		case "maxviolations":
 			cfg.MaxViolations = n
+		case "solver":
+			cfg.Solver = v
 		case "poolchoice":
 			cfg.PoolChoice = v == "yes"
 		case "timeout":
